@@ -105,7 +105,19 @@ pub fn check_rerun(ctx: &Ctx, n: u64, files: &[(String, String)], root: &str, ar
     if let Some((Some(0), _, _, f0)) = &first {
         if args.iter().any(|a| a == "generate") && n % 3 == 0 {
             let dir2 = cli::scratch_dir(&ctx.out, "c17h", n);
-            let earlier: Vec<(String, String)> = files.iter().map(|(p, t)| if p.ends_with(".graphql") || p.ends_with(".graphqls") { (p.clone(), format!("# an earlier revision\n\n{t}")) } else { (p.clone(), t.clone()) }).collect();
+            // the earlier revision also had one more type in its first schema file: every output was longer then
+            let first_schema = files.iter().map(|(p, _)| p.clone()).find(|p| p.contains("/schema/") && (p.ends_with(".graphql") || p.ends_with(".graphqls")));
+            let earlier: Vec<(String, String)> = files
+                .iter()
+                .map(|(p, t)| {
+                    if p.ends_with(".graphql") || p.ends_with(".graphqls") {
+                        let extra = if Some(p) == first_schema.as_ref() { "\n\"only in the earlier revision\"\ntype ZzzEarlierRevisionOnly {\n  aRatherLongFieldNameThatMakesEveryOutputLonger: Int\n}\n" } else { "" };
+                        (p.clone(), format!("# an earlier revision\n\n{t}{extra}"))
+                    } else {
+                        (p.clone(), t.clone())
+                    }
+                })
+                .collect();
             if cli::write_project(&dir2, &earlier).is_ok() {
                 let cwd2 = dir2.join(root);
                 let r1 = cli::run_cli(&ctx.cli, &cwd2, &a, Duration::from_secs(120));
